@@ -77,9 +77,16 @@ Inductive qobs :=
   QObs (q : msg) (udp : bool) (ca : option addr)
        (seen : list (N * msg)) (chain : chain_obs) (reply : option msg) (rlen : N).
 
+(** [CFun op arg m out aux]: one helper applied to a message that may hold
+    OPT records anywhere: op 0 SetTTL(arg), 1 ApplyMinimalTTL(arg),
+    2 ApplyMaximumTTL(arg), 3 SubtractTTL(arg) (aux = 1 when it reports an
+    overflow), 4 GetMinimalTTL (aux = result), 5 cache.copyNoOpt,
+    6 NewContext: out = Q(), aux = 2*[clientOpt != nil] + [RespOpt().Do()],
+    7 SetResponse: out = R(), aux = [UpstreamOpt() != nil]. *)
 Inductive case :=
-  CRun (xs : list xdesc) (ws : list wdesc) (scripts : list (list rtmpl))
-       (prog : list tseq) (qs : list qobs).
+| CRun (xs : list xdesc) (ws : list wdesc) (scripts : list (list rtmpl))
+       (prog : list tseq) (qs : list qobs)
+| CFun (op arg : N) (m out : msg) (aux : N).
 
 (** * Model side *)
 
@@ -236,6 +243,28 @@ Fixpoint agree_queries (ent : state -> state * option N) (w : world) (qs : list 
     && agree_queries ent w1 t
   end.
 
+Definition b2N (b : bool) : N := if b then 1 else 0.
+
+Definition all_rrs (m : msg) : list rr := m_answer m ++ m_ns m ++ m_extra m.
+Definition ttl_of (r : rr) : option N := match r with RR _ _ _ t _ => Some t | OPT _ => None end.
+
+Definition fun_model (op arg : N) (m : msg) : msg * N :=
+  match op with
+  | 0 => (set_ttl arg m, 0)
+  | 1 => (apply_min_ttl arg m, 0)
+  | 2 => (apply_max_ttl arg m, 0)
+  | 3 => (subtract_ttl arg m,
+          b2N (existsb (fun r => match ttl_of r with Some t => negb (arg <? t) | None => false end) (all_rrs m)))
+  | 4 => (m, min_ttl m)
+  | 5 => (copy_no_opt m, 0)
+  | 6 => let c := new_context m false None in
+         (c_query c, 2 * b2N (match c_client_opt c with Some _ => true | None => false end)
+                     + b2N (match c_resp_opt c with Some o => o_do o | None => false end))
+  | _ => let c := set_response (new_context (mk 0 0 0 [] [] [] []) false None) 1 m in
+         (match c_resp c with Some r => r | None => m end,
+          b2N (match c_upstream_opt c with Some _ => true | None => false end))
+  end.
+
 Definition agree (c : case) : bool :=
   match c with
   | CRun xs ws scripts prog qs =>
@@ -243,6 +272,8 @@ Definition agree (c : case) : bool :=
     | Some rs => agree_queries (jentry xs ws scripts rs) empty_world qs
     | None => false
     end
+  | CFun op arg m out aux =>
+    let '(o, a) := fun_model op arg m in msg_eqb o out && (a =? aux)
   end.
 
 (** * The property's own oracle for C15, on the observations alone *)
@@ -315,9 +346,41 @@ Definition spec_query (ws : list wdesc) (scripts : list (list rtmpl)) (o : qobs)
        end
   end.
 
+(** the OPT records of every section, with their positions *)
+Definition opt_layout (l : list rr) : list (option opt) :=
+  map (fun r => match r with OPT o => Some o | _ => None end) l.
+Definition layout_eqb (a b : list rr) : bool :=
+  list_eqb (option_eqb opt_eqb) (opt_layout a) (opt_layout b).
+Definition drop_opts (l : list rr) : list rr := filter (fun r => negb (is_opt r)) l.
+
+(** the helpers, on the observation alone: TTL rewriting leaves every OPT where
+    and as it is; a copy for the cache has no OPT in the additional section and
+    is otherwise the message; a fresh context has exactly one, fresh, OPT in
+    its query; SetResponse takes exactly the last OPT out *)
+Definition spec_fun (op : N) (m out : msg) (aux : N) : bool :=
+  match op with
+  | 0 | 1 | 2 | 3 | 4 =>
+    layout_eqb (m_answer m) (m_answer out) && layout_eqb (m_ns m) (m_ns out) && layout_eqb (m_extra m) (m_extra out)
+  | 5 =>
+    no_opt (m_extra out) && list_eqb rr_eqb (m_extra out) (drop_opts (m_extra m))
+    && list_eqb rr_eqb (m_answer out) (m_answer m) && list_eqb rr_eqb (m_ns out) (m_ns m)
+  | 6 =>
+    match rev (opts_of (m_extra out)), rev (opts_of (m_extra m)) with
+    | o :: rest, [] => opt_eqb o new_opt && (aux =? 0) && match rest with [] => true | _ => false end
+    | o :: rest, co :: rest' =>
+      opt_eqb o new_opt && list_eqb opt_eqb rest rest' && (aux =? 2 + b2N (o_do co))
+    | [], _ => false
+    end
+  | _ =>
+    (length (opts_of (m_extra out)) =? pred (length (opts_of (m_extra m))))%nat
+    && list_eqb rr_eqb (drop_opts (m_extra out)) (drop_opts (m_extra m))
+    && (aux =? b2N (negb (no_opt (m_extra m))))
+  end.
+
 Definition spec15 (c : case) : bool :=
   match c with
   | CRun xs ws scripts prog qs => forallb (spec_query ws scripts) qs
+  | CFun op arg m out aux => spec_fun op m out aux
   end.
 Definition spec := spec15.
 
@@ -338,5 +401,6 @@ Definition nontrivial15 (c : case) : bool :=
                            && ((0 <? length (opts_client q))%nat || (0 <? length (opts_upstream scripts))%nat)
                          | _ => false
                          end) qs
+  | CFun op arg m out aux => negb (no_opt (all_rrs m))
   end.
 Definition nontrivial := nontrivial15.
